@@ -111,6 +111,10 @@ func (data *Data) Serialize(fr *FrameHeader) {
 		fr.SetFlags(
 			fr.Flags().Add(FlagPadded))
 		data.b = http2utils.AddPadding(data.b)
+	} else {
+		// A frame that was parsed keeps the flags it arrived with, and its
+		// padding has been cut: PADDED must not survive into what is written.
+		fr.SetFlags(fr.Flags() &^ FlagPadded)
 	}
 
 	fr.setPayload(data.b)
